@@ -171,6 +171,24 @@ def extra_scenarios(ctx):
         if n % 4 == 0 or not q:
             add({'c1.css': css_of_size(n), 'c2.css': 'b{color:blue}', 'c3.css': css_of_size(rnd.choice([0, 13]))},
                 inputs=['c1.css', 'c2.css', 'c3.css'], output='all.css', b=True)
+    # the separator is a function of the RESOLVED media type, however it was resolved: extension, --type name, --type media
+    # type, --mime, --ext mapping; files need not be called .js; to a file and to stdout; inputs where the separator matters
+    # (no trailing ';'/newline and the next file starts with '(' ; trailing // comment without newline)
+    pairs = [('var a = 1', '(function(){b()})()', 'var c = 3'), ('var a = 1 //c', 'var b = 2', '[1,2].map(c)')]
+    ways = [dict(type='js'), dict(type='application/javascript'), dict(type='js', mime=True), dict(type='application/javascript', mime=True),
+            dict(ext=[dict(e=s2b('txt'), t='js')]), dict(ext=[dict(e=s2b('txt'), t='application/javascript')]), dict()]
+    combos = [(w, names, dest, pr) for w in ways for names in (('a.txt', 'b.txt', 'c.txt'), ('a.js', 'b.mjs', 'c.js'))
+              for dest in ('all.js', None) for pr in pairs
+              if not (not w and names[0].endswith('.txt'))]          # plain extension inference needs .js names
+    if q:
+        combos = [c for k, c in enumerate(combos) if k % 2 == rnd.randrange(2) or c[0].get('mime') or 'ext' in c[0]]
+    for w, names, dest, pr in combos:
+        if 'ext' in w and not names[0].endswith('.txt'):
+            continue
+        kw = dict(w, inputs=list(names), b=True)
+        if dest:
+            kw['output'] = dest
+        add(dict(zip(names, pr)), **kw)
     # bundle written onto one of its own sources; bundle of a directory; bundle with an empty file in the middle
     add({'a.js': 'var a = 1', 'x.js': 'var x = 2'}, inputs=['a.js', 'x.js'], output='a.js', b=True)
     add({'a.js': 'var a = 1', 'x.js': 'var x = 2'}, inputs=['a.js', 'x.js'], output='x.js', b=True)
@@ -456,7 +474,7 @@ def run(ctx):
         'Plan (spec/CliPlan.tla) is transcribed from cmd/minify/README.md and the property text, not from the code; scenarios it does not determine are not run',
         'the library side is minify.M set up as the library README documents (default options), called through the public API',
         'file modes, ownership and timestamps are not part of the property statement and are not judged',
-        'TLC enumerates trees of <= %d entries from a universe of 19 entries x 69 invocation shapes; the real binary runs a seeded per-shape sample' % (2 if quick else 4),
+        'TLC enumerates trees of <= %d entries from a universe of 19 entries x 72 invocation shapes; the real binary runs a seeded per-shape sample' % (2 if quick else 4),
     ]
 
 
@@ -492,7 +510,7 @@ META = dict(
     category='model_checking',
     text='Plan(tree, argv) - the documented semantics of the command (output file / directory mirror / stdout, trailing '
          'slashes, -r, -a, --match, --include/--exclude order, --type/--mime/--ext, -b with the ";\\n" separator, -s, -p links, '
-         'in-place) - is a TLA+ operator. TLC evaluates it on every tree of a 19-entry universe (<=2/<=4 entries) x 69 '
+         'in-place) - is a TLA+ operator. TLC evaluates it on every tree of a 19-entry universe (<=2/<=4 entries) x 72 '
          'invocation shapes, checks design claims (mirror shape, each source once, sync covers all, fresh output is safe) '
          'and hands the determined scenarios to the real binary; the recorded final file tree, exit status and stdout '
          'are validated by TLC against Plan and the library\'s own output: every destination holds exactly the library '
